@@ -93,6 +93,9 @@ Composite::Composite(const std::string &name, Context &parent)
     : definitionName(name),
     ctx(std::make_unique<Context>(&parent, definitionName, true))
 {
+    // the member types of a globally defined record type are looked up globally: what they mean does not depend
+    // on the local types of the procedure that happens to declare a variable of the record type
+    if (parent.getCompositeDefinition(name, false) == nullptr) ctx->typeScope = parent.getGlobalContext();
     getDefinition(*ctx).initBlock.run(*ctx);
 }
 
